@@ -253,12 +253,31 @@ Definition eprog_okb (k : ekind) (e : eprog) : bool :=
   | _, _ => false
   end.
 
-(* ---------- normalised execution (Qred after every update; Proofs/SI.v: equal as rationals) ---------- *)
+(* ---------- normalised execution (Qred on what an update changed; Proofs/SI.v: equal as rationals) ---------- *)
 Definition cnorm (c : chan) : chan :=
   mkC (cf c) (csw c) (cbr c) (Qred (pch c)) (Qred (rs c)) (Qred (ra c)) (Qred (rn c)).
-Definition crun_n (ops : list cop) (c : chan) : chan := fold_left (fun c o => cnorm (cstep o c)) ops c.
-Definition snorm (sp : spectrum) : spectrum := map cnorm sp.
-Definition sstep_n (o : sop) (sp : spectrum) : res spectrum := let* r := sstep o sp in Ok (snorm r).
+Definition cstep_n (o : cop) (c : chan) : chan :=
+  match o with
+  | CAtt k => mkC (cf c) (csw c) (cbr c) (Qred (pch c * k)) (rs c) (ra c) (rn c)
+  | CGain g => mkC (cf c) (csw c) (cbr c) (Qred (pch c * g)) (rs c) (ra c) (rn c)
+  | CNli x => let c' := add_nli x c in mkC (cf c) (csw c) (cbr c) (pch c) (Qred (rs c')) (Qred (ra c')) (Qred (rn c'))
+  | CAse x => cnorm (add_ase x c)
+  end.
+Definition crun_n (ops : list cop) (c : chan) : chan := fold_left (fun c o => cstep_n o c) ops c.
+Fixpoint map2c_n (f : Q -> cop) (xs : list Q) (sp : spectrum) : res spectrum :=
+  match xs, sp with
+  | [], [] => Ok []
+  | x :: xt, c :: ct => let* r := map2c_n f xt ct in Ok (cstep_n (f x) c :: r)
+  | _, _ => Err "ValueError:shape"
+  end.
+Definition sstep_n (o : sop) (sp : spectrum) : res spectrum :=
+  match o with
+  | SAtt ks => map2c_n CAtt ks sp
+  | SGain gs => map2c_n CGain gs sp
+  | SAse xs => map2c_n CAse xs sp
+  | SNli xs => map2c_n CNli xs sp
+  | _ => sstep o sp
+  end.
 Fixpoint srun_n (ops : list sop) (sp : spectrum) : res spectrum :=
   match ops with
   | [] => Ok sp
